@@ -240,6 +240,9 @@ fn outcome<R>(f: impl FnOnce() -> anyhow::Result<R>) -> (&'static str, String) {
 /// recomputes the query indices from the transcript and ignores that field, which only the byte
 /// encoder reads; accepting a proof whose copy of it is wrong does not accept a false statement.)
 fn compressed_malformed(ctx: &mut Ctx) {
+    if ctx.is_witness_run() {
+        return;
+    }
     use plonky2::plonk::circuit_data::CircuitConfig;
     use plonky2::plonk::config::PoseidonGoldilocksConfig as C;
     use plonky2::plonk::proof::CompressedProofWithPublicInputs as CP;
@@ -347,6 +350,9 @@ const COMP_FILES: &[&str] = &[
 /// (overwrite-mode sponge without padding), so only the explicit count check rejects a dropped or
 /// appended zero public input. Concrete structure: evaluated facts on the real end-to-end API.
 fn compressed_shape(ctx: &mut Ctx) {
+    if ctx.is_witness_run() {
+        return;
+    }
     use plonky2::plonk::circuit_data::CircuitConfig;
     use plonky2::plonk::config::PoseidonGoldilocksConfig as C;
     use plonky2_field::goldilocks_field::GoldilocksField as G;
